@@ -152,3 +152,8 @@ func VerifC04_sized() {
 		verifC04(1, 2, 3)
 	}
 }
+
+// a cell's text changed (possibly to a text of the same size) and the cell was updated between renders
+func VerifC04_updated() {
+	verifUpdated()
+}
